@@ -1,6 +1,12 @@
 	// ===== engine K harnesses for rcgen/src/lib.rs =====
 	// Expected values are transcribed from the RFCs cited next to them, never from the code.
-	use time::{Date, UtcOffset};
+	// explicit imports: a harness must not depend on which names the repo's own `use` lines happen to bring in
+	use time::{Date, OffsetDateTime, Time, UtcOffset};
+	use yasna::models::ObjectIdentifier;
+	use yasna::tags::{TAG_BMPSTRING, TAG_PRINTABLESTRING, TAG_TELETEXSTRING, TAG_UNIVERSALSTRING};
+	use yasna::{DERWriter, Tag};
+	use std::net::IpAddr;
+	use crate::string::Ia5String;
 
 	pub(crate) fn fixed_random_state() -> std::hash::RandomState {
 		// std's RandomState::new() reaches getrandom (FFI); a fixed state is a sound stand-in because
@@ -185,7 +191,7 @@
 		match dt.checked_to_offset(UtcOffset::UTC) { Some(u) => u, None => { kani::assume(false); unreachable!() } }
 	}
 
-	/// @ob time.form @props C09,C10 @kind forall @tier quick @replay time @timeout 1500 @mem 12 @fns rcgen::write_dt_utc_or_generalized,rcgen::dt_strip_nanos,rcgen::dt_to_generalized
+	/// @ob time.form @props C04,C09,C10 @kind forall @tier quick @replay time @timeout 1500 @mem 12 @fns rcgen::write_dt_utc_or_generalized,rcgen::dt_strip_nanos,rcgen::dt_to_generalized
 	/// @bound "every OffsetDateTime of the time crate (years -9999..=9999, every ordinal, h:m:s.ns, every UTC offset h:m:s) whose UTC year is in 0..=9999"
 	#[kani::proof]
 	#[kani::unwind(24)]
@@ -347,4 +353,77 @@
 		assert!(TAG_PRINTABLESTRING == Tag { tag_class: yasna::TagClass::Universal, tag_number: 19 });
 		assert!(TAG_TELETEXSTRING == Tag { tag_class: yasna::TagClass::Universal, tag_number: 20 });
 		assert!(TAG_UNIVERSALSTRING == Tag { tag_class: yasna::TagClass::Universal, tag_number: 28 });
+	}
+
+	// ---------------------------------------------------------------- yasna primitives rcgen relies on (C04): checked on the REAL yasna code
+	// These shrink the assumed contract on yasna for exactly the calls rcgen makes; they are not a proof of yasna.
+
+	/// @ob yasna.bigint.positive_minimal @props C04,C05 @kind forall @tier quick @timeout 900 @bound "every 3-byte input (leading zeros, high bit set, all zero), positive = true" @fns yasna::DERWriter::write_bigint_bytes
+	#[kani::proof]
+	#[kani::unwind(8)]
+	fn yasna_bigint_positive_minimal() {
+		let b: [u8; 3] = kani::any();
+		kani::cover!(true, "reachable");
+		let der = yasna::construct_der(|w| w.write_bigint_bytes(&b, true));
+		// X.690 8.3: INTEGER contents are the minimal two's-complement octets; a serial / CRL number is non-negative
+		assert!(der[0] == 0x02);
+		let n = der[1] as usize;
+		assert!(der.len() == 2 + n && n >= 1 && n <= 4);
+		let c = &der[2..];
+		assert!(c[0] & 0x80 == 0, "non-negative");
+		if n > 1 { assert!(!(c[0] == 0 && c[1] & 0x80 == 0), "no redundant leading zero octet"); }
+		// value preserved
+		let mut v: u32 = 0;
+		let mut i = 0;
+		while i < n { v = (v << 8) | c[i] as u32; i += 1; }
+		assert!(v == ((b[0] as u32) << 16 | (b[1] as u32) << 8 | b[2] as u32));
+	}
+
+	/// @ob yasna.bool_true @props C04 @kind forall @tier quick @bound "BOOLEAN TRUE / FALSE" @fns yasna::DERWriter::write_bool
+	#[kani::proof]
+	#[kani::unwind(4)]
+	fn yasna_bool_true() {
+		kani::cover!(true, "reachable");
+		let t = yasna::construct_der(|w| w.write_bool(true));
+		assert!(t.len() == 3 && t[0] == 0x01 && t[1] == 1 && t[2] == 0xff, "DER: TRUE is FF");
+		let f = yasna::construct_der(|w| w.write_bool(false));
+		assert!(f.len() == 3 && f[0] == 0x01 && f[1] == 1 && f[2] == 0x00);
+	}
+
+	/// @ob yasna.oid.short_arcs @props C04 @kind bounded @tier thorough @timeout 1200 @mem 16 @bound "OID 2.5.x.y with symbolic x, y < 128 (one content octet each)" @fns yasna::DERWriter::write_oid
+	#[kani::proof]
+	#[kani::unwind(12)]
+	fn yasna_oid_short_arcs() {
+		let x: u64 = kani::any();
+		let y: u64 = kani::any();
+		kani::assume(x < 128 && y < 128);
+		kani::cover!(true, "reachable");
+		let der = yasna::construct_der(|w| w.write_oid(&ObjectIdentifier::from_slice(&[2, 5, x, y])));
+		// X.690 8.19: first octet 40*2+5 = 85; each further arc base-128, minimal
+		assert!(der.len() == 5 && der[0] == 0x06 && der[1] == 3 && der[2] == 85 && der[3] == x as u8 && der[4] == y as u8);
+	}
+
+	/// @ob yasna.set_of.sorted @props C04,C07 @kind bounded @tier thorough @timeout 1200 @mem 16 @bound "SET OF two elements, each an OCTET STRING of one symbolic byte" @fns yasna::DERWriter::write_set_of
+	#[kani::proof]
+	#[kani::unwind(12)]
+	fn yasna_set_of_sorted() {
+		let a: u8 = kani::any();
+		let b: u8 = kani::any();
+		kani::cover!(true, "reachable");
+		let der = yasna::construct_der(|w| w.write_set_of(|w| { w.next().write_bytes(&[a]); w.next().write_bytes(&[b]); }));
+		// X.690 11.6: the encodings of a SET OF are sorted ascending
+		assert!(der.len() == 8 && der[0] == 0x31 && der[1] == 6);
+		assert!(der[2] == 0x04 && der[3] == 1 && der[5] == 0x04 && der[6] == 1);
+		assert!(der[4] <= der[7]);
+		assert!((der[4] == a && der[7] == b) || (der[4] == b && der[7] == a));
+	}
+
+	/// @ob yasna.length.long_form @props C04 @kind bounded @tier thorough @timeout 1200 @mem 16 @bound "OCTET STRING of 130 zero bytes (long-form length)" @fns yasna::DERWriter::write_bytes
+	#[kani::proof]
+	#[kani::unwind(140)]
+	fn yasna_length_long_form() {
+		kani::cover!(true, "reachable");
+		let v = [0u8; 130];
+		let der = yasna::construct_der(|w| w.write_bytes(&v));
+		assert!(der.len() == 133 && der[0] == 0x04 && der[1] == 0x81 && der[2] == 130, "minimal long-form length");
 	}
